@@ -20,7 +20,7 @@ func init() {
 			"(d) the winner is replaced only under score != 0 and (no winner or score > winner's score), Providers is then replaced by the single provider of that response, appended only under bidsEqual, and every counted response is recorded in Participation; " +
 			"(e) the winner is updated only from the collector loops, each bounded by the strategy's deadline context; (f) the block relay caches the winning bid only under a non-nil winner and serves a cached bid only when its value is positive; " +
 			"(g) a relay is listed for unblinding only if its client can supply bids (and, in 'best', unblind); (h) the result of a failed client lookup is not used. " +
-			"NOT decided: that the highest score among all timely bids wins (needs arrival orders), value arithmetic, relay honesty.",
+			"Added with the third seeding round: (e, extended) the deadline strategy's cut-off is StartOfSlot(slot) + the configured deadline. NOT decided: that the highest score among all timely bids wins (needs arrival orders), value arithmetic, relay honesty.",
 		Technique: "SSA guard/edge-deletion queries with relation sets and guard-helper summaries (error-nilness), provenance of verifier inputs and score operands, who-may-call on the winner update, use-after-failed-call analysis",
 		Rule:      "obligations (a)-(e),(g),(h) per strategy package; (f) for services/blockrelay/standard",
 	})
